@@ -43,7 +43,7 @@ def handle (input : Json) : Except String Json := do
   let methods ← (← Driver.fldArr input "methods").toList.mapM methOfJson
   let funcOn0 := ((Driver.fldOpt input "funcOn").bind (fun a => a.getArr?.toOption)).getD #[] |>.toList.map (fun x => x.getBool?.toOption.getD true)
   let ops ← Driver.fldArr input "ops"
-  let mut st : MSt := ⟨fun _ => [], []⟩
+  let mut st : MSt := ⟨fun _ => [], [], []⟩
   let mut on := funcOn0
   let mut kept : List (Nat × List (List Val)) := []
   let mut trace : Array Json := #[]
@@ -62,6 +62,9 @@ def handle (input : Json) : Except String Json := do
       let (st', out) := stepB generatedBodies cfg st (.call fr (!m.results.isEmpty))
       for (mn, a) in st'.invoked.drop before do
         evs := evs ++ [joinSp (["saw", mn] ++ a)]
+      if (Driver.fldBool o "reenter").toOption.getD false then
+        for n in st'.seen.drop st.seen.length do
+          evs := evs ++ [s!"reentered {n}"]
       st := st'
       match out with
       | .returned vs => evs := evs ++ [joinSp ("returned" :: vs)]
